@@ -96,7 +96,7 @@ pub fn exec(op: &str, a: &[Vec<u8>]) -> Option<Resp> {
             }
             let mut acc = Acc::new();
             need!(acc.add(&s, &a32(&a[1])));
-            rep(&acc.finish(), 6)
+            rep(&acc.finish(), 10)
         }
         "sm.mul_base" => {
             let s = need!(scalar_int(&a[0]));
